@@ -19,16 +19,47 @@ int vh_log_i; double vh_log_d;
 #ifndef MODE
 #define MODE 1
 #endif
+extern double dlangs(char *, SuperMatrix *);   /* not declared in slu_mt_ddefs.h */
 int_t sp_ienv(int_t i) { return 1; }
 int xerbla_(char *s, int *i) { vh_assert(0, "xerbla_ called on valid arguments"); return 0; }
+double dlamch_(char *c) { return 2.2250738585072014e-308; }
 #define VH_REAL double
 #include "refblas.h"
 static int pat(int i, int j) { return (int)(((unsigned long)PAT >> (i + j * M)) & 1UL); }
 static double ab(double x) { return x < 0 ? -x : x; }
 static double mx(double a, double b) { return a > b ? a : b; }
 
-#if MODE == 2
+#if MODE == 2 || MODE == 6
 #include "wf_lu.h"
+/* constructed well-formed factors: supernode sizes SUPS (sum N); in supernode s the rows below the diagonal
+   block are the rows r > last column with bit (r + N*s) of LPAT set, stored in DESCENDING order (any order is
+   legal); U(i,j) above the block of column j present iff bit (i + N*j) of UPAT; all values symbolic */
+static SuperMatrix L, U;
+static void build_factors(void)
+{
+    static const int sups[] = SUPS;
+    static double lval[2 * N * N + 2], uval[N * N + 1];
+    static int_t lsub[2 * N * N + 2], xlsub[N + 1], xlsub_end[N + 1], xlusup[N + 1], xlusup_end[N + 1];
+    static int_t supno[N + 1], xsup[N + 1], xsup_end[N + 1], usub[N * N + 1], xusub[N + 1], xusub_end[N + 1];
+    static SCPformat Ls; static NCPformat Us;
+    int ns = 0, f = 0, nl = 0, nv = 0, nu = 0, s, i, j;
+    for (s = 0; f < N; ++s) {
+        int w = sups[s], e = f + w, nsupr, r;
+        xsup[s] = f; xsup_end[s] = e; xlsub[f] = nl;
+        for (r = f; r < e; ++r) lsub[nl++] = r;
+        for (r = N - 1; r >= e; --r) if ((LPAT >> (r + N * s)) & 1) lsub[nl++] = r;
+        xlsub_end[f] = nl; nsupr = nl - xlsub[f];
+        for (j = f; j < e; ++j) { supno[j] = s; xlusup[j] = nv; for (r = 0; r < nsupr; ++r) lval[nv++] = vh_double(); xlusup_end[j] = nv; }
+        for (j = f; j < e; ++j) { xusub[j] = nu; for (i = 0; i < f; ++i) if ((UPAT >> (i + N * j)) & 1) { usub[nu] = i; uval[nu++] = vh_double(); } xusub_end[j] = nu; }
+        f = e; ns = s + 1;
+    }
+    supno[N] = ns - 1;
+    Ls.nnz = 0; Ls.nsuper = ns - 1; Ls.nzval = lval; Ls.nzval_colbeg = xlusup; Ls.nzval_colend = xlusup_end; Ls.rowind = lsub;
+    Ls.rowind_colbeg = xlsub; Ls.rowind_colend = xlsub_end; Ls.col_to_sup = supno; Ls.sup_to_colbeg = xsup; Ls.sup_to_colend = xsup_end;
+    Us.nnz = nu; Us.nzval = uval; Us.rowind = usub; Us.colbeg = xusub; Us.colend = xusub_end;
+    L.Stype = SLU_SCP; L.Dtype = SLU_D; L.Mtype = SLU_TRLU; L.nrow = N; L.ncol = N; L.Store = &Ls;
+    U.Stype = SLU_NCP; U.Dtype = SLU_D; U.Mtype = SLU_TRU; U.nrow = N; U.ncol = N; U.Store = &Us;
+}
 #endif
 
 VH_MAIN
@@ -81,36 +112,13 @@ VH_MAIN
     }
 #elif MODE == 2
     {
-        /* constructed factors: supernode sizes SUPS (sum N); in supernode s the rows below the diagonal block
-           are the rows r > last column with bit (r + N*s) of LPAT set, stored in DESCENDING order (any order
-           is legal); U(i,j) above the block of column j present iff bit (i + N*j) of UPAT */
-        static const int sups[] = SUPS;
-        static double lval[2 * N * N + 2], uval[N * N + 1], x[N], x0[N];
-        static int_t lsub[2 * N * N + 2], xlsub[N + 1], xlsub_end[N + 1], xlusup[N + 1], xlusup_end[N + 1];
-        static int_t supno[N + 1], xsup[N + 1], xsup_end[N + 1], usub[N * N + 1], xusub[N + 1], xusub_end[N + 1];
-        static SCPformat Ls; static NCPformat Us; SuperMatrix L, U;
-        int ns = 0, f = 0, nl = 0, nv = 0, nu = 0, s;
+        static double x[N], x0[N];
         int_t info = 0;
 #ifndef VAR
 #define VAR 0
 #endif
         const char *uplo = (VAR == 0 || VAR == 2) ? "L" : "U", *tr = (VAR < 2) ? "N" : "T", *dg = (VAR == 0 || VAR == 2) ? "U" : "N";
-        for (s = 0; f < N; ++s) {
-            int w = sups[s], e = f + w, nsupr, r;
-            xsup[s] = f; xsup_end[s] = e; xlsub[f] = nl;
-            for (r = f; r < e; ++r) lsub[nl++] = r;
-            for (r = N - 1; r >= e; --r) if ((LPAT >> (r + N * s)) & 1) lsub[nl++] = r;
-            xlsub_end[f] = nl; nsupr = nl - xlsub[f];
-            for (j = f; j < e; ++j) { supno[j] = s; xlusup[j] = nv; for (r = 0; r < nsupr; ++r) lval[nv++] = vh_double(); xlusup_end[j] = nv; }
-            for (j = f; j < e; ++j) { xusub[j] = nu; for (i = 0; i < f; ++i) if ((UPAT >> (i + N * j)) & 1) { usub[nu] = i; uval[nu++] = vh_double(); } xusub_end[j] = nu; }
-            f = e; ns = s + 1;
-        }
-        supno[N] = ns - 1;
-        Ls.nnz = 0; Ls.nsuper = ns - 1; Ls.nzval = lval; Ls.nzval_colbeg = xlusup; Ls.nzval_colend = xlusup_end; Ls.rowind = lsub;
-        Ls.rowind_colbeg = xlsub; Ls.rowind_colend = xlsub_end; Ls.col_to_sup = supno; Ls.sup_to_colbeg = xsup; Ls.sup_to_colend = xsup_end;
-        Us.nnz = nu; Us.nzval = uval; Us.rowind = usub; Us.colbeg = xusub; Us.colend = xusub_end;
-        L.Stype = SLU_SCP; L.Dtype = SLU_D; L.Mtype = SLU_TRLU; L.nrow = N; L.ncol = N; L.Store = &Ls;
-        U.Stype = SLU_NCP; U.Dtype = SLU_D; U.Mtype = SLU_TRU; U.nrow = N; U.ncol = N; U.Store = &Us;
+        build_factors();
         lu_expand(N, &L, &U);
         for (i = 0; i < N; ++i) { vh_assume(vh_Ud[i][i] != 0); x[i] = vh_double(); x0[i] = x[i]; }
         sp_dtrsv((char *)uplo, (char *)tr, (char *)dg, &L, &U, x, &info);
@@ -126,9 +134,9 @@ VH_MAIN
     }
 #elif MODE == 3
     {
-        double vM, v1, vO, vI, rM = 0, r1 = 0, rI = 0;
+        double vM, v1, vO, vI, rM = 0.0, r1 = 0.0, rI = 0.0;
         vM = dlangs("M", &A); v1 = dlangs("1", &A); vO = dlangs("O", &A); vI = dlangs("I", &A);
-        for (j = 0; j < N; ++j) { double s = 0; for (i = 0; i < M; ++i) { s += ab(Ad[i][j]); rM = mx(rM, ab(Ad[i][j])); } r1 = mx(r1, s); }
+        for (j = 0; j < N; ++j) { double s = 0.0; for (i = 0; i < M; ++i) { s += ab(Ad[i][j]); rM = mx(rM, ab(Ad[i][j])); } r1 = mx(r1, s); }
         for (i = 0; i < M; ++i) { double s = 0; for (j = 0; j < N; ++j) s += ab(Ad[i][j]); rI = mx(rI, s); }
         vh_assert_eq(vM, rM, "max norm"); vh_assert_eq(v1, r1, "one norm"); vh_assert_eq(vO, r1, "one norm (O)"); vh_assert_eq(vI, rI, "infinity norm");
     }
@@ -161,6 +169,28 @@ VH_MAIN
         dCreate_CompCol_Matrix(&C2, M, N, nnz, a, rowind, colptr, SLU_NC, SLU_D, SLU_GE);
         { NCformat *cs = (NCformat *)C2.Store; vh_assert(cs->nzval == (void *)a && cs->rowind == rowind && cs->colptr == colptr && cs->nnz == nnz && C2.nrow == M && C2.ncol == N, "constructor aliases the caller's arrays"); }
         free(C2.Store); free(at); free(rowind2); free(colptr2);
+    }
+#elif MODE == 6
+    {
+        /* reciprocal pivot growth = min over the first NCOLS columns of max|A(:,j)| / max|U(:,j)|, recomputed densely */
+        static const int_t pc[N] = VH_PERMC;
+        static int_t perm_c[N];
+        double got, ref = 1.0 / 2.2250738585072014e-308;
+#ifndef NCOLS
+#define NCOLS N
+#endif
+        build_factors();
+        lu_expand(N, &L, &U);
+        for (j = 0; j < N; ++j) perm_c[j] = pc[j];
+        got = dPivotGrowth(NCOLS, &A, perm_c, &L, &U);
+        for (j = 0; j < N; ++j) if (j < NCOLS) {
+            double ma = 0, mu = 0; int oc = 0;
+            for (k = 0; k < N; ++k) if (perm_c[k] == j) oc = k;
+            for (i = 0; i < N; ++i) ma = mx(ma, ab(Ad[i][oc]));
+            for (i = 0; i <= j; ++i) mu = mx(mu, ab(vh_Ud[i][j]));
+            if (mu == 0) { if (1.0 < ref) ref = 1.0; } else if (ma / mu < ref) ref = ma / mu;
+        }
+        vh_assert_eq(got, ref, "reciprocal pivot growth equals min_j max|A(:,j)| / max|U(:,j)| over the leading columns");
     }
 #elif MODE == 5
     {
